@@ -27,7 +27,7 @@ import warnings
 from ..gen import modules as GM
 
 LEVEL = "translation_validation"
-TECHNIQUE = "runtime monitoring / translation validation: the AST captured at the real loader's compile() call is compared with the original AST after removing exactly the three documented additions, over a corpus (stdlib + site-packages) and generated modules; dynamic arm compares plain vs hooked execution (stdout, exceptions, traceback line numbers, line events, code-object table); modules called again after uninstall(); a real IPython InteractiveShell with reload"
+TECHNIQUE = "runtime monitoring / translation validation: the AST captured at the real loader's compile() call is compared with the original AST after removing exactly the three documented additions, over a corpus (stdlib + site-packages) and generated modules; dynamic arm compares plain vs hooked execution (stdout, exceptions, traceback line numbers, line events, code-object table); modules called again after uninstall(); a real IPython InteractiveShell with reload; a quarter of the shards compile with warnings turned into errors; several modules of one hook compiled concurrently in threads and compared with the same modules compiled alone"
 LEVEL_TEXT = (
     "Every corpus file that compiles on its own (quick: a seeded sample; thorough: the whole stdlib and site-packages, "
     "~10k files) and every generated module is validated individually: equality of ast.dump(include_attributes=True) after "
